@@ -380,3 +380,23 @@ func (d *drv) multiGraphRaw() *ld.RDFDataset {
 	}
 	return ds
 }
+
+// regressionDocs: minimal inputs of the defects this property found or touches; run first on
+// every invocation (D1 two-node cycle, D25 self-reference in three shapes, shared node, D10
+// empty string). All must be rejected with an error.
+func regressionDocs() []*docgen.Doc {
+	v := docgen.Vocab
+	mk := func(why string, obj map[string]any) *docgen.Doc {
+		b, _ := json.Marshal(obj)
+		return &docgen.Doc{Bytes: b, Obj: obj, Expect: "error", Why: why, Features: map[string]bool{"regression:" + why: true}}
+	}
+	return []*docgen.Doc{
+		mk("cycle-2", map[string]any{"@id": "urn:a", v + "p": map[string]any{"@id": "urn:b", v + "q": map[string]any{"@id": "urn:a"}}}),
+		mk("cycle-1", map[string]any{"@id": "urn:c0", v + "name": "n0", v + "next": map[string]any{"@id": "urn:c0"}}),
+		mk("cycle-1", map[string]any{"@id": "urn:c0", v + "next": map[string]any{"@id": "urn:c0"}}),
+		mk("cycle-1", map[string]any{"@id": "urn:c0", v + "next": []any{map[string]any{"@id": "urn:c0"}, map[string]any{"@id": "urn:v1"}}}),
+		mk("cycle-1", map[string]any{"@id": "_:b", v + "name": "n0", v + "next": map[string]any{"@id": "_:b"}}),
+		mk("shared-node", map[string]any{"@id": "urn:r", v + "a": map[string]any{"@id": "urn:s", v + "name": "x"}, v + "b": map[string]any{"@id": "urn:s"}}),
+		mk("empty-string", map[string]any{"@id": "urn:r", v + "name": ""}),
+	}
+}
